@@ -71,6 +71,40 @@ def flows_to_result(prog, f, s):
     return False, carry
 
 
+def _restates_absent(prog, f, i):
+    """block i lies on the NotContains arm of a match over a FilterResult that a call returned (`NotContains => NotContains`)"""
+    adt = prog.adts.get(FR)
+    if not adt:
+        return False
+    names = [v['name'] for v in adt['variants']]
+    idx = names.index('NotContains') if 'NotContains' in names else None
+    if idx is None:
+        return False
+    for j in f.reachable():
+        t = f.blocks[j]['t']
+        if t['k'] != 'switch' or j == i:
+            continue
+        for (bb, si, kind, r) in f.defs().get(op_local(t['o']), []):
+            if kind != 'assign' or r['k'] != 'discr':
+                continue
+            ty = (core.place_type_str(f, r['p']) or f.locals[r['p'][0]]['s']).lstrip('&')
+            if not ty.startswith(FR):
+                continue
+            ogs = core.origins(f, {'c': r['p']})
+            if not ogs or not all(o.kind == 'call' for o in ogs):
+                continue
+            vals = dict(t['vals'])
+            if idx in vals:
+                edge = vals[idx]
+            elif len(vals) == len(names) - 1:
+                edge = t['otherwise']
+            else:
+                continue
+            if edge == i or f.dominates(edge, i):
+                return True
+    return False
+
+
 def b1(ctx, rid):
     prog = ctx.prog
     n = 0
@@ -82,6 +116,9 @@ def b1(ctx, rid):
         root = prog.fns[f.id].root
         key = 'absent|%s' % root
         own = OWNERS.get(root)
+        if not own and _restates_absent(prog, f, i):
+            ctx.ok(rid, key, f.where(i), 're-states the `absent` answer of another filter on the NotContains arm of a match over it', nontrivial=False)
+            continue
         if not own:
             ctx.bad(rid, key, f.where(i), 'a new place answers `definitely absent` (FilterResult::NotContains): every such answer needs a justifying test')
             continue
